@@ -125,6 +125,12 @@ def build(cfg, scratch):
         m.mount("data/m", s)
         return Built(m, [s, d], prefix="data/m/", cleanup=cleanup, pinned=["data/m", "data"],
                      extra_keys=["data/local.txt", "data/x/y.txt", "data/mx.txt", "top.txt"])
+    if name == "readonly":
+        # a store that refuses every write (with some content to read)
+        s = leaf(arg, scratch, cleanup)
+        for k, v in (("a/b.txt", b"ro-ab"), ("e.txt", b"ro-e"), ("f/g.bin", b"\x00ro")):
+            s.store(k, v, {"x_user": "ro"})
+        return Built(s.read_only(), [s], cleanup=cleanup)
     if name == "global":
         s = leaf(arg, scratch, cleanup)
         m = MountPointStore().with_indexer()
